@@ -13,6 +13,8 @@ TABLE = {
             ('OpyVerif.Proofs.C03', 'Opy', r'clip_precedes_hook|sweep_follows_hook'),
             ('OpyVerif.Generated.Skeletons', 'Opy.Gen', r'skel_\w+_good|evalSites_ok|evalSites_nonempty')],
     'C02': [('OpyVerif.Proofs.C02', 'Opy', None),
+            ('OpyVerif.Proofs.SweepCode', 'Opy', None), ('OpyVerif.Proofs.SweepProg', 'Opy', None),
+            ('OpyVerif.Generated.Sweeps', 'Opy.Gen', None),
             ('OpyVerif.Proofs.Accept', 'Opy', r'best_site_is_sweep_rule|accept_takes_better'),
             ('OpyVerif.Generated.Accepts', 'Opy.Gen', r'acceptSites_ok|best_sites_present'),
             ('OpyVerif.Proofs.Lemmas.MachineInv', 'Opy', r'inv_(apply|run|init)'),
@@ -20,6 +22,7 @@ TABLE = {
     'C03': [('OpyVerif.Proofs.C03', 'Opy', None),
             ('OpyVerif.Proofs.C03norm', 'Opy', None), ('OpyVerif.Proofs.C03onlooker', 'Opy', None),
             ('OpyVerif.Proofs.Budget', 'Opy', None), ('OpyVerif.Generated.Budget', 'Opy.Gen', None),
+            ('OpyVerif.Proofs.SweepCode', 'Opy', r'code_sweeps_eval_once|code_sweep_owners'), ('OpyVerif.Generated.Sweeps', 'Opy.Gen', None),
             ('OpyVerif.Generated.Skeletons', 'Opy.Gen', r'skel_\w+_good'),
             ('OpyVerif.Proofs.C18real', 'Opy', r'index_draw_range')],
     'C04': [('OpyVerif.Proofs.C04', 'Opy', r'dump|lookup_appendAttr'),
@@ -46,6 +49,8 @@ TABLE = {
             ('OpyVerif.Generated.Constants', 'Opy.Gen', r'nArgs_|epsilon_pos')],
     'C11': [('OpyVerif.Proofs.C11', 'Opy.PNode', None)],
     'C12': [('OpyVerif.Proofs.C12', 'Opy', None),
+            ('OpyVerif.Proofs.SweepCode', 'Opy', r'code_gpSweep'), ('OpyVerif.Proofs.SweepProg', 'Opy', r'gpSweep'),
+            ('OpyVerif.Generated.Sweeps', 'Opy.Gen', r'gpSweep_eq|sweepOwners_eq'),
             ('OpyVerif.Generated.Skeletons', 'Opy.Gen', r'skel_GP_good|evalSites_ok')],
     'C13': [('OpyVerif.Proofs.C13', 'Opy', None),
             ('OpyVerif.Proofs.C13code', 'Opy', None),
@@ -72,6 +77,8 @@ TABLE = {
     'C19': [('OpyVerif.Proofs.C19', 'Opy', None),
             ('OpyVerif.Proofs.C04', 'Opy', r'load_after_save|lookup_loadInto_saved')],
     'C20': [('OpyVerif.Proofs.C20', 'Opy', None),
+            ('OpyVerif.Proofs.SweepCode', 'Opy', None), ('OpyVerif.Proofs.SweepProg', 'Opy', r'_truthful|_is_machine_rule|eval_once'),
+            ('OpyVerif.Generated.Sweeps', 'Opy.Gen', None),
             ('OpyVerif.Proofs.Accept', 'Opy', r'accept_never_worse|accept_pair'),
             ('OpyVerif.Generated.Accepts', 'Opy.Gen', r'acceptSites_ok|replacing_sites'),
             ('OpyVerif.Proofs.C06', 'Opy', r'clipPos_fixed'),
